@@ -114,6 +114,8 @@ def run_impl(case):
         pg = np.array([i % 2 for i in range(len(pos))])
         ngp = np.array([(i + 1) % 2 for i in range(len(neg))])
         g = GroupScores(pos, neg, pos_groups=pg, neg_groups=ngp, score_class=case["sc"], equal_class=case["ec"])
+        if len(case["pos"]) % 2:      # history: one group view (not the first group) was taken before anything else
+            _ = g[1].pos
         gs = g.swap()
         out["gcm"] = [[int(v) for v in m.reshape(-1)] for m in g.cm(thr).matrix]
         out["gcm_swap"] = [[int(v) for v in m.reshape(-1)] for m in gs.cm(thr).matrix]
